@@ -18,4 +18,4 @@ for f in sorted(fs, key=lambda f: (f['kind'], f['src'], f['op'], f['sig'])):
     a['preds'] = ps if a['preds'] is None else (a['preds'] & ps)
 for k, a in agg.items():
     f = a['ex']
-    print('%-10s %-6s %-14s %-60s n=%-5d common=%s | %s | S=%s p=%s arg=%s' % (k[0], k[1], k[2], k[3][:60], a['count'], ','.join(sorted(a['preds'])), f['detail'][:90], f['strings'], f['params'], f['arg']))
+    print('%-10s %-6s %-14s %-60s n=%-5d common=%s | %s | S=%s p=%s arg=%s' % (k[0], k[1], k[2], k[3][:60], a['count'], ','.join(sorted(a['preds'])), f['detail'][:90], f['strings'][:60], f['params'], f['arg'][:40]))
